@@ -2,7 +2,7 @@
 EXTENDS Gen_Sketch
 RSlots == 1..3
 RTokens == {10, 11, 12, 13, 14, 15, -10, -11, -12, -13, -14, -15, 0, -1, 2, -3, 16, -17}
-RWeights == {1, 2, 4, 8, 132, 280, 4096}
+RWeights == {1, 2, 4, 6, 8, 132, 280, 4096}
 RFactors == {<<1, 2>>, <<2, 1>>}
 ROps == {"Add", "AddW", "AddN", "Merge", "Clear", "Reweight", "EncDec", "DecodeNew", "Concat"}
 RInit == (1 :> NewSketch("plain", 1, "low", 2, "low", 3)) @@ (2 :> NewSketch("plain", 1, "exact", 0, "exact", 0)) @@ (3 :> NewSketch("plain", 1, "high", 2, "high", 1))
